@@ -353,5 +353,25 @@ PROPS["C19"] = dict(
     assumptions=["go/parser and go/scanner decide what the files contain", "the harness's edits produce valid Go (checked)"],
 )
 
+PROPS["C20"] = dict(
+    pkg="c20", race=True, level="exploration", prepare="exec_projects", crash_is_violation=True,
+    projects_quick=[("fed2", ["v0", "v1"]), ("fed1", ["v0"])],
+    projects_thorough=[("fed2", ["v0", "v1", "w2", "v4"]), ("fed1", ["v0", "v1"])],
+    quick=dict(shards=8, timeout=900), thorough=dict(shards=16, timeout=3000),
+    claim="model-based testing of federation _entities on servers generated with the federation plugin (v1 and v2 schemas, several "
+          "option vectors): rapid draws representation lists of length 0-12 (interleaved entity types, duplicates, single and compound "
+          "and nested keys, two keys per type, batch (@entityResolver(multi: true)) entities, unknown or missing __typename, missing / "
+          "null / wrongly typed keys, a @requires field) with per-key outcomes {entity, error, panic, nil} and delays that reorder "
+          "completion; entity resolvers stamp each entity with the key they were called with, so the model can say, per index, which "
+          "entity (or null) must stand there, that a failing representation is reported, that no failure changes another element, and "
+          "that the @requires field comes from the same representation; run under the race detector; an unrecovered panic is a violation",
+    note="the entity_resolver_multi package option named in the property text does not exist at the pinned commit; batch resolvers come "
+         "from the @entityResolver(multi: true) directive; explicit_requires / computed_requires need hand-written populate functions and "
+         "are not generated here; for batch groups a failing member nulls its whole (type, key) group (the documented GetMany contract)",
+    technique="model-based property testing (rapid) with identity-stamped resolvers + Go race detector",
+    rule="evaluation = one _entities request on one vector; non-trivial = >=3 representations of >=2 types with >=1 failing one; distinct by the case",
+    assumptions=["the model picks the first @key whose fields are all present and not all null, as the generated code documents"],
+)
+
 # properties deliberately not claimed (reason); anything else missing from PROPS is "not built yet"
 NOT_CLAIMED = {}
